@@ -4,7 +4,9 @@ import itertools
 import lib_objects as L
 import tie
 
-RULE = ("self-describing scripts judged against a Python dict printed in UTF-8-byte key order. Stream `perms`: every subset "
+RULE = ("self-describing scripts judged against a Python dict printed in UTF-8-byte key order. Stream `long-keys`: keys of 20..100 "
+        "bytes with a 2/3/4-byte character at every offset, present (stored, read, updated, iterated, destructured) and missing (read, "
+        "op-assign, destructuring, nested, inside a function: a reported error, never a crash). Stream `perms`: every subset "
         "(size <= 3 quick / <= 5 thorough, plus a sample of size 4 resp. 6) of the keys a, A, b, '', 'a b', 'é', '_', '0' inserted in "
         "every order (exhaustive), by `.k`/`[\"k\"]` assignment, by literal or by repeated spread, then print / for / == "
         "against the same pairs written in another order. Stream `hist`: random histories of <= 5 / <= 7 operations out of "
@@ -529,6 +531,47 @@ def byte_key_scripts():
     return out
 
 
+def long_key_scripts(thorough):
+    """keys are arbitrary text: long keys (20..100 bytes) with a 2-, 3- or 4-byte character at every offset behave like any
+    other key on every path — stored, read back, updated, iterated in byte order; and a MISSING such key is a reported error
+    (never a crash) on read, op-assignment and destructuring"""
+    out = []
+    for total in (20, 30, 41, 45, 60, 100):
+        for ch in ("é", "€", "\U0001F600"):
+            step = 1 if (thorough or total in (41, 45)) else 5
+            for at in range(0, total - 1, step):
+                key = "k" * at + ch + "k" * max(0, total - at - len(ch.encode()))
+                lit = L.str_lit(key)
+                sc = L.Script()
+                sc.stmt('o := {"a": 1}')
+                sc.stmt(f"o[{lit}] = 5")
+                sc.stmt(f"print(o[{lit}])")
+                sc.expect(5)
+                sc.stmt(f"o[{lit}] += 2")
+                sc.stmt(f"print(o[{lit}])")
+                sc.expect(7)
+                sc.stmt("for [k, v] in o {\n    print(k)\n}")
+                sc.expect_text("a")
+                sc.expect_text(key)
+                sc.stmt(f"{{{lit}: got}} := o")
+                sc.stmt("print(got)")
+                sc.expect(7)
+                sc.tags = ["long-key", "present", len(key.encode())]
+                out.append(sc.source({"tags": sc.tags}))
+                for name, use in (("read", f"print(o[{lit}])"), ("op-assign", f"o[{lit}] += 1"), ("destructure", f"{{{lit}: got}} := o"),
+                                  ("read-nested", f"print(p.inner[{lit}])"), ("op-assign-in-function", f"bump({lit})")):
+                    sc = L.Script()
+                    sc.stmt('o := {"a": 1}')
+                    sc.stmt('p := {"inner": o}')
+                    sc.stmt("fn bump(k) {\n    o[k] += 1\n}")
+                    sc.stmt('print("before")')
+                    sc.expect_text("before")
+                    sc.fail(use, "a missing key is a reported error")
+                    sc.tags = ["long-key", "missing-" + name, len(key.encode())]
+                    out.append(sc.source({"tags": sc.tags}))
+    return out
+
+
 def classify(src, r):
     p = L.prediction(src) or {}
     return (tuple(p.get("tags", []))[:8], L.err_class(r))
@@ -548,6 +591,7 @@ def run(ctx, model_ok):
     L.run_stream(ctx, "for-kept", for_kept_scripts(), model_ok, classify=classify)
     L.run_stream(ctx, "self-keyed", self_keyed_scripts(), model_ok, classify=classify)
     L.run_stream(ctx, "byte-keys", byte_key_scripts(), model_ok, classify=classify)
+    L.run_stream(ctx, "long-keys", long_key_scripts(thorough), model_ok, classify=classify)
     impl = L.run_stream(ctx, "perms", perms, model_ok, classify=lambda s, r: ("perm", s.split("\n")[1][:40], r["status"]))
     # metamorphic leg: within a group (same pairs, all insertion orders) the output is one and the same text
     res = dict(zip(list(dict.fromkeys(perms)), impl))
